@@ -98,7 +98,7 @@ PAIRS = [("u8", "u8"), ("u8", "i8"), ("i8", "u8"), ("u8", "c8"), ("c8", "u8"), (
          ("u32", "u32"), ("u64", "i64"), ("i64", "u64"), ("u32", "f32"), ("f32", "u32"), ("f32", "i32"), ("f32", "f32"), ("f64", "f64"),
          ("f64", "u64"), ("u8", "e8"), ("e8", "e8"), ("p64", "p64"), ("w1", "u8"), ("w1", "w1"), ("w4", "u32"), ("w4", "w4"),
          ("u32", "conv"), ("conv", "conv"), ("cnt", "cnt"), ("cnt", "i32"), ("i32", "i16"), ("u64", "u32")]
-FORMS = ["vecL", "vecR", "listL", "listR", "arrL", "stdArrL", "genL", "ptr", "vecIt", "listIt", "moveIt", "revIt", "deqIt"]
+FORMS = ["vecL", "vecR", "listL", "listR", "arrL", "stdArrL", "genL", "ptr", "vecIt", "listIt", "moveIt", "revIt", "deqIt", "inIt"]
 RANGE_FORMS = {"vecL", "vecR", "listL", "listR", "arrL", "stdArrL", "genL"}
 BITS = {"u8": 8, "i8": 8, "c8": 8, "b1": 1, "u16": 16, "i16": 16, "u32": 32, "i32": 32, "u64": 64, "i64": 64, "e8": 8, "w1": 8, "w4": 32,
         "conv": 32, "p64": 64}
